@@ -81,6 +81,11 @@ def ev(e, data):
         return v[e["i"]]
     if x == "lit":
         return dec(e.get("v"))
+    if x == "call" and e.get("fn") == "splitString" and len(e.get("args", [])) == 2:
+        a, b = ev(e["args"][0], data), ev(e["args"][1], data)
+        if not isinstance(a, str) or not isinstance(b, str):
+            raise EvalError("splitString of non-strings")
+        return list(a) if b == "" else a.split(b)   # Go strings.Split: an empty separator splits into characters
     raise Unsupported(str(x))
 
 
@@ -465,6 +470,26 @@ def mon_c01_engine(case, verdict, chk):
     elif res.get("returned") and not res.get("output_id") and not res.get("err") and "panic" not in case:
         chk.violation("C01:neither-output-nor-error", "Execute returned neither an output nor an error",
                       {"kind": "impl-counterexample", "case": slim(case)})
+
+
+def no_eval_failure(pid, what):
+    """In streams whose generated expressions cannot fail once the outputs they refer to exist (no -evalfail), a run that ends
+    with 'cannot resolve expressions' evaluated an expression over data that lacks what it refers to: the stage (or output, or
+    optional member) was evaluated before / without its source having been produced."""
+    def mon(case, verdict, chk):
+        res = case.get("result", {})
+        if "evalFailed" in (res.get("err_class") or ""):
+            chk.violation(pid + ":evaluated-without-its-source", "%s: the run ended with an evaluation failure although every generated "
+                          "expression evaluates once its sources are produced: %s" % (what, (res.get("err") or "")[:300]),
+                          {"kind": "impl-counterexample", "case": slim(case)})
+    return mon
+
+
+def both(*mons):
+    def mon(case, verdict, chk):
+        for m in mons:
+            m(case, verdict, chk)
+    return mon
 
 
 def result_shape(pid):
